@@ -479,7 +479,7 @@ fn one_op<B: BmCtl>(w: &mut GmWorld<B>, tracked: bool, step: usize) -> Step {
     // descriptor and scripted-stream transfers (15..) run in the untracked worlds too: their
     // contents and stray-access oracles belong to C03
     let _ = tracked;
-    let kind = cx().a(19);
+    let kind = cx().a(20);
     let ga = GuestAddress(addr);
     let mut st = Step { desc: String::new(), kind: "", got: GO::Unit, exp: None, wrote: vec![], failed_fd: vec![], effect: Effect::NoWrite, free_result: false };
     let _ = step;
@@ -707,16 +707,18 @@ fn one_op<B: BmCtl>(w: &mut GmWorld<B>, tracked: bool, step: usize) -> Step {
                 _ => cx().a(size as u32) as usize,
             };
             let n = gen_nlen(size - off.min(size));
-            let form = cx().a(6); // 0 write, 1 read, 2 write_obj::<u64>, 3 store::<u32>, 4 read_exact_volatile_from(&[u8]), 5 load::<u32>
+            // 0 write, 1 read, 2 write_obj::<u64>, 3 store::<u32>, 4 read_exact_volatile_from(&[u8]), 5 load::<u32>,
+            // 6 read_slice, 7 write_slice, 8 read_obj::<u64>
+            let form = cx().a(9);
             let off = if form == 3 || form == 5 { off & !3 } else { off };
             let n = match form {
-                2 => 8,
+                2 | 8 => 8,
                 3 | 5 => 4,
                 _ => n,
             };
             let base = w.regs[i].base;
             let gaddr = base + off as u64;
-            let names = ["region.write", "region.read", "region.write_obj", "region.store", "region.read_exact_volatile_from", "region.load"];
+            let names = ["region.write", "region.read", "region.write_obj", "region.store", "region.read_exact_volatile_from", "region.load", "region.read_slice", "region.write_slice", "region.read_obj"];
             st.kind = names[form as usize];
             st.desc = format!("find_region({:#x}).{}(len {}, {})", base, &st.kind[7..], n, off);
             let data = compl(w, gaddr, n);
@@ -747,6 +749,21 @@ fn one_op<B: BmCtl>(w: &mut GmWorld<B>, tracked: bool, step: usize) -> Step {
                     st.got = go_u(catch(|| reg.read_exact_volatile_from(at, &mut src, n)));
                     st.exp = Some(if off.checked_add(n).map(|e| e > size).unwrap_or(true) { GO::Backend } else { GO::Unit });
                 }
+                6 => {
+                    st.got = go_u(catch(|| reg.read_slice(&mut rbuf, at)));
+                    st.exp = Some(if off >= size { GO::Backend } else if k < n { GO::Partial(n, k) } else { GO::Unit });
+                    if st.got == GO::Unit && k == n && rbuf[..] != w.model_read(gaddr, n)[..] {
+                        st.got = GO::Other("wrong data".into());
+                    }
+                }
+                7 => {
+                    st.got = go_u(catch(|| reg.write_slice(&data, at)));
+                    st.exp = Some(if off >= size { GO::Backend } else if k < n { GO::Partial(n, k) } else { GO::Unit });
+                }
+                8 => {
+                    st.got = go_b(catch(|| reg.read_obj::<u64>(at).map(|v| bytes_of(&v))));
+                    st.exp = Some(if off >= size { GO::Backend } else if k < 8 { GO::Partial(8, k) } else { GO::Bytes(w.model_read(gaddr, 8)) });
+                }
                 _ => {
                     st.got = go_b(catch(|| reg.load::<u32>(at, Ordering::SeqCst).map(|v| bytes_of(&v))));
                     st.exp = Some(if off + 4 > size || !aligned { GO::Backend } else { GO::Bytes(w.model_read(gaddr, 4)) });
@@ -755,7 +772,7 @@ fn one_op<B: BmCtl>(w: &mut GmWorld<B>, tracked: bool, step: usize) -> Step {
             // what the model says was written
             let wrote = match form {
                 0 if off < size => k,
-                2 if off < size => k,
+                2 | 7 if off < size => k,
                 3 if off + 4 <= size && aligned => 4,
                 4 if off + n <= size => n,
                 _ => 0,
@@ -763,7 +780,7 @@ fn one_op<B: BmCtl>(w: &mut GmWorld<B>, tracked: bool, step: usize) -> Step {
             if wrote > 0 {
                 w.model_write(gaddr, &data[..wrote]);
                 st.wrote.push((gaddr, wrote));
-                st.effect = if form == 2 && k < 8 { Effect::PartialFail } else { Effect::Write };
+                st.effect = if (form == 2 && k < 8) || (form == 7 && k < n) { Effect::PartialFail } else { Effect::Write };
             }
             if form == 1 && off < size && st.got == GO::Count(k) && rbuf[..k] != w.model_read(gaddr, k)[..] {
                 st.got = GO::Other("wrong data".into());
@@ -794,6 +811,44 @@ fn one_op<B: BmCtl>(w: &mut GmWorld<B>, tracked: bool, step: usize) -> Step {
                 OpOutcome::Sim(s) => GO::Panic(format!("{:?}", s)),
             };
             st.exp = Some(GO::Unit);
+        }
+        19 => {
+            // guest-to-guest copy through accessors derived from get_slice: a typed element array or a
+            // plain slice copied into another slice of guest memory
+            let addr2 = gen_gaddr(&w.regs);
+            let room1 = first.map(|(i, off)| w.regs[i].size - off).unwrap_or(0);
+            let room2 = w.find(addr2).map(|(i, off)| w.regs[i].size - off).unwrap_or(0);
+            let ti = cx().a(20) as usize;
+            let sz = TYPE_SIZES[ti];
+            let typed = cx().a(3) != 0;
+            let nel = if room1 / sz == 0 { 0 } else { 1 + cx().a((room1 / sz).min(40) as u32) as usize };
+            let slen = if typed { nel * sz } else { (1 + cx().a(room1.max(1).min(200) as u32) as usize).min(room1) };
+            let dlen = if room2 == 0 { 0 } else { (1 + cx().a(room2.min(300) as u32) as usize).min(room2) };
+            st.kind = if typed { "array.copy_to_volatile_slice between guest ranges" } else { "slice.copy_to_volatile_slice between guest ranges" };
+            st.desc = format!("get_slice({:#x}, {}){}.copy_to_volatile_slice(get_slice({:#x}, {}))", addr, slen, if typed { format!(".get_array_ref::<{}>(0, {})", TYPE_NAMES[ti], nel) } else { String::new() }, addr2, dlen);
+            let k = slen.min(dlen);
+            let overlap = addr < addr2.wrapping_add(dlen as u64) && addr2 < addr.wrapping_add(slen as u64);
+            if slen == 0 || dlen == 0 || overlap {
+                st.desc.push_str(" skipped");
+                st.exp = Some(GO::Unit);
+            } else {
+                let src_bytes = w.model_read(addr, k);
+                let r = catch(|| -> Result<(), GErr> {
+                    let s = w.gm.get_slice(ga, slen)?;
+                    let d = w.gm.get_slice(GuestAddress(addr2), dlen)?;
+                    if typed {
+                        crate::with_type!(ti, T => vm_memory::VolatileMemory::get_array_ref::<T>(&s, 0, nel).map_err(GErr::from)?.copy_to_volatile_slice(d));
+                    } else {
+                        s.copy_to_volatile_slice(d);
+                    }
+                    Ok(())
+                });
+                st.got = go_u(r);
+                st.exp = Some(GO::Unit);
+                w.model_write(addr2, &src_bytes);
+                st.wrote.push((addr2, k));
+                st.effect = Effect::Write;
+            }
         }
         15 | 16 => {
             // descriptor read into guest memory with injected syscall results
